@@ -11,10 +11,12 @@
                                >=2 -> rejected with --ff-only, else merge commit over nonAncestral
       cmd/wrgl/pull_cmd.go     pullSingleRepo (refspecs given on the command line): fetch, merge heads =
                                destinations whose value differs from the branch, new-branch creation
+                               (repaired 43d74b6: the branch is re-read after the fetch; [pull_step_prefix]
+                               keeps the behaviour before the fix)
       pkg/ref/refs.go          SaveRef; pkg/ref/sql/store.go SetWithLog (old value read in the same
                                transaction), Delete (removes the ref's log)
-      pkg/conf/refspec.go      DstForRef (exact / trailing-* glob; slice panic on a ref shorter than the
-                               glob prefix is modelled as outcome 2)
+      pkg/conf/refspec.go      DstForRef (exact / trailing-* glob; repaired 598c9ec: a ref shorter than the
+                               glob prefix yields no destination instead of a slice panic)
     and, for push, the reference server's rule R1-R4 (harness/c09_server.go, trusted).
 
     The ancestry test and the merge base are PARAMETERS of every step function
@@ -33,7 +35,8 @@
             | (3 gforce mode branch (spec ...) m)            pull BRANCH origin SPEC...
             names in specs are without "refs/"; for a glob the name is the part before '*'
       obs   = (outcome nrej lrefs' rrefs')
-      outcome 0 ok | 1 error | 2 panic; nrej = number of rejections reported
+      outcome 0 ok | 1 error (the harness reports a panic as 2; the model never does); nrej = number of
+      rejections reported
       refs' = ((name id ((old? new action) ...)) ...) sorted by name, log newest first
       actions: 0 setup("commit") 1 fetch 2 merge 3 pull 4 receive-pack *)
 From Coq Require Import List NArith Bool.
@@ -210,16 +213,15 @@ Record state := mk_state { lrefs : rstore; rrefs : rstore; lhave : list commit }
 (* ------------------------------------------------------------------ fetch *)
 Record refspec := mk_spec { rs_force : bool; rs_glob : bool; rs_src : name; rs_dst : name }.
 
-Inductive dres := DNone | DSome (n : name) | DPanic.
-
 (** Refspec.DstForRef on "refs/"-prefixed names (the common "refs/" is dropped on both sides).
-    For a glob, p[:srcStarInd] panics when the ref is shorter than the prefix. *)
-Definition dst_for_ref (sp : refspec) (r : name) : dres :=
+    For a glob the ref must be at least as long as, and start with, the part before '*'
+    (repaired: a shorter ref used to make p[:srcStarInd] panic; it now yields no destination). *)
+Definition dst_for_ref (sp : refspec) (r : name) : option name :=
   if rs_glob sp then
-    if Nat.ltb (length r) (length (rs_src sp)) then DPanic
-    else if is_prefix (rs_src sp) r then DSome (rs_dst sp ++ skipn (length (rs_src sp)) r)
-    else DNone
-  else if beqb (rs_src sp) r then DSome (rs_dst sp) else DNone.
+    if Nat.ltb (length r) (length (rs_src sp)) then None
+    else if is_prefix (rs_src sp) r then Some (rs_dst sp ++ skipn (length (rs_src sp)) r)
+    else None
+  else if beqb (rs_src sp) r then Some (rs_dst sp) else None.
 
 Record fitem := mk_fitem { fi_src : name; fi_dst : name; fi_new : commit; fi_force : bool }.
 
@@ -229,23 +231,20 @@ Definition listing (s : rstore) : list (name * commit) :=
               let n := fst e in
               if is_prefix s_remotes n || is_prefix s_txs n then [] else [(n, fst (snd e))]) s.
 
-Definition items_of_ref (specs : list refspec) (r : name) (c : commit) : bool * list fitem :=
-  fold_left (fun (acc : bool * list fitem) sp =>
-               match dst_for_ref sp r with
-               | DPanic => (true, snd acc)
-               | DSome d => (fst acc, snd acc ++ [mk_fitem r d c (rs_force sp)])
-               | DNone => acc
-               end) specs (false, []).
+Definition items_of_ref (specs : list refspec) (r : name) (c : commit) : list fitem :=
+  flat_map (fun sp => match dst_for_ref sp r with
+                      | Some d => [mk_fitem r d c (rs_force sp)]
+                      | None => []
+                      end) specs.
 
-(** identifyRefsToFetch: (panicked, refs to fetch, uncovered tags) *)
+(** identifyRefsToFetch: (refs to fetch, uncovered tags) *)
 Definition resolve_fetch (specs : list refspec) (l : list (name * commit))
-  : bool * list fitem * list (name * commit) :=
-  fold_left (fun (acc : bool * list fitem * list (name * commit)) (e : name * commit) =>
-               let '(pn, its, tags) := acc in
-               let '(p, its') := items_of_ref specs (fst e) (snd e) in
-               (pn || p, its ++ its',
+  : list fitem * list (name * commit) :=
+  fold_left (fun (acc : list fitem * list (name * commit)) (e : name * commit) =>
+               let its' := items_of_ref specs (fst e) (snd e) in
+               (fst acc ++ its',
                 if match its' with [] => is_prefix s_tags (fst e) | _ => false end
-                then tags ++ [e] else tags)) l (false, [], []).
+                then snd acc ++ [e] else snd acc)) l ([], []).
 
 Fixpoint insert_item (it : fitem) (l : list fitem) : list fitem :=
   match l with
@@ -273,18 +272,27 @@ Definition fetch_loop ia gforce (s : rstore) (items : list fitem) : facc :=
 
 Record result := mk_result { r_state : state; r_trace : list trans; r_outcome : N; r_nrej : nat }.
 
+(** fetch.Fetch: identifyRefsToFetch; fetchObjects; saveFetchedRefs.  [recv] stands for fetchObjects:
+    given the advertised commits it answers the set of commits stored afterwards, or None when the
+    transfer failed (then no ref is written).  model/Session.v plugs the upload-pack session in. *)
+Definition fetch_step_h (ia : commit -> commit -> bool) (st : state)
+           (specs : list refspec) (gforce : bool) (recv : list commit -> option (list commit)) : result :=
+  let '(items, tags) := resolve_fetch specs (listing (rrefs st)) in
+  match recv (map fi_new items) with
+  | None => mk_result st [] 1 O
+  | Some have' =>
+    (* tags not covered by a refspec are stored when their commit is present and the name is free *)
+    let extra := flat_map (fun e : name * commit =>
+                             if cmem (snd e) have' && negb (is_some (rget (lrefs st) (fst e)))
+                             then [mk_fitem (fst e) (fst e) (snd e) false] else []) tags in
+    let '(s', tr, nrej) := fetch_loop ia gforce (lrefs st) (sort_items (items ++ extra)) in
+    mk_result (mk_state s' (rrefs st) have') tr (match nrej with O => 0 | _ => 1 end) nrej
+  end.
+
+(** C10's view of fetchObjects: every advertised commit arrives with all its ancestors (C09) *)
 Definition fetch_step (g : graph) (ia : commit -> commit -> bool) (st : state)
            (specs : list refspec) (gforce : bool) : result :=
-  let '(pn, items, tags) := resolve_fetch specs (listing (rrefs st)) in
-  if pn then mk_result st [] 2 O else
-  (* fetchObjects: every advertised commit arrives with all its ancestors (C09) *)
-  let have' := add_all (lhave st) (anc_closure g (map fi_new items)) in
-  (* tags not covered by a refspec are stored when their commit is present and the name is free *)
-  let extra := flat_map (fun e : name * commit =>
-                           if cmem (snd e) have' && negb (is_some (rget (lrefs st) (fst e)))
-                           then [mk_fitem (fst e) (fst e) (snd e) false] else []) tags in
-  let '(s', tr, nrej) := fetch_loop ia gforce (lrefs st) (sort_items (items ++ extra)) in
-  mk_result (mk_state s' (rrefs st) have') tr (match nrej with O => 0 | _ => 1 end) nrej.
+  fetch_step_h ia st specs gforce (fun adv => Some (add_all (lhave st) (anc_closure g adv))).
 
 (* ------------------------------------------------------------------- push *)
 Record pitem := mk_pitem { pi_force : bool; pi_src : option name; pi_dst : name }.
@@ -432,15 +440,20 @@ Definition merge_step (g : graph) (sk : list commit -> seekres) (st : state)
   end.
 
 (* ------------------------------------------------------------------- pull *)
-Definition pull_step (g : graph) (ia : commit -> commit -> bool) (sk : list commit -> seekres)
+(** [fixed] = true: the code as it is now (the branch is re-read after the fetch: if the fetch half
+    created it, the pull goes on as for an existing branch); false: the code before fix 43d74b6, where
+    "new branch" was decided once, before the fetch. *)
+Definition pull_step_gen (fixed : bool) (g : graph) (ia : commit -> commit -> bool)
+           (sk : list commit -> seekres)
            (st : state) (branch : name) (specs : list refspec) (gforce : bool) (mode : mmode)
            (m : commit) : result :=
   let bn := s_heads ++ branch in
-  let newbranch := negb (is_some (rget (lrefs st) bn)) in
+  let newbranch0 := negb (is_some (rget (lrefs st) bn)) in
   let rf := fetch_step g ia st specs gforce in
   if negb (r_outcome rf =? 0) then rf else
   let st1 := r_state rf in
-  (* extractMergeHeads reads the branch only when it existed before the fetch *)
+  let newbranch := if fixed then newbranch0 && negb (is_some (rget (lrefs st1) bn)) else newbranch0 in
+  (* extractMergeHeads reads the branch only when it is not a new branch *)
   let old := if newbranch then None else rget (lrefs st1) bn in
   (* merge heads: destinations of the given refspecs that exist and differ from the branch *)
   let heads := flat_map (fun sp : refspec =>
@@ -470,6 +483,9 @@ Definition pull_step (g : graph) (ia : commit -> commit -> bool) (sk : list comm
       | _, _ => mk_result st1 (r_trace rf) 1 (r_nrej rf)
       end
     end.
+
+Definition pull_step := pull_step_gen true.
+Definition pull_step_prefix := pull_step_gen false.
 
 (* --------------------------------------------------------------- histories *)
 Inductive op :=
